@@ -469,4 +469,64 @@ class PolarsStrictFilterColumns(Contract):
         return thunk
 
 
-CONTRACTS = [PolarsAddMissingColumns, PolarsSetDefault, PolarsStrictFilterColumns]
+class PandasTypedFrame(TypedFrame):
+    """the same view of a pandas DataFrame: `drop(labels=..., axis=1, inplace=True)` removes the columns from THIS object"""
+
+    def pyvc_class(self):
+        import pandas as pd
+
+        return pd.DataFrame
+
+    def drop(self, labels=None, axis=0, inplace=False, **kw):
+        if axis != 1:
+            raise core.Unsupported("DataFrame.drop(axis=0) in strict_filter_columns")
+        flat = list(labels or [])
+        if any(n not in self.cols for n in flat):
+            raise PyExc(cur().ghost["interp"].make_exc(KeyError, "not found in axis"))
+        kept = {n: t for n, t in self.cols.items() if n not in flat}
+        if inplace:
+            self.cols = kept
+            cur().ghost.setdefault("dropped_in_place", []).append(list(flat))
+            return None
+        return PandasTypedFrame(kept, "drop")
+
+
+class PandasStrictFilterColumns(PolarsStrictFilterColumns):
+    """pandas twin: same contract, same layouts (the frame it is given is the one add_missing_columns returned)"""
+
+    target = "pandera.backends.pandas.container:DataFrameSchemaBackend.strict_filter_columns"
+    raises = (SchemaError,)
+
+    def make_args(self):
+        a = super().make_args()
+        from pandera.backends.pandas.container import DataFrameSchemaBackend as B
+
+        a["self"] = T.Ref(B).fresh("self")
+        a["check_obj"] = PandasTypedFrame(a["check_obj"].cols, "argument")
+        cur().ghost["frame"] = a["check_obj"]
+        return a
+
+    def ensures(self, result, old, self_, check_obj, schema, column_info):
+        out = super().ensures(result, old, self_, check_obj, schema, column_info)
+        return out
+
+    def concretize(self, rec):
+        def thunk():
+            import warnings
+
+            import pandas as pd
+            import pandera as pa
+
+            warnings.simplefilter("ignore")
+            schema = pa.DataFrameSchema({"a": pa.Column(int), "b": pa.Column(int, default=7)}, strict="filter", add_missing_columns=True)
+            try:
+                out = schema.validate(pd.DataFrame({"x": [0], "a": [1]}))
+                cols = list(out.columns)
+                return cols != ["a", "b"], {"input columns": ["x", "a"], "returned columns": cols}
+            except Exception as e:  # noqa: BLE001
+                return True, f"{type(e).__name__}: {e}"[:160]
+
+        return thunk
+
+
+CONTRACTS = [PolarsAddMissingColumns, PolarsSetDefault, PolarsStrictFilterColumns, PandasStrictFilterColumns]
